@@ -50,7 +50,10 @@ Inductive placement := PlacedAlloc | PlacedPipe | PlacedNone | PlaceRefused.
 Definition try_place (s : sess) (sid tid nid : positive) : sess * placement :=
   match heap s !! tid, nodes s !! nid with
   | Some p, Some n =>
-    if less_equal eps (t_init p) (n_idle n) DZero then
+    (* alloc.predicate (allocate.go 985-993): nodes whose FutureIdle cannot hold the task are
+       filtered out before scoring, so no placement is ever attempted on them *)
+    if negb (less_equal_names eps (t_init p) (future_idle n) DZero) then (s, PlacedNone)
+    else if less_equal eps (t_init p) (n_idle n) DZero then
       let '(s', r) := stmt_allocate eps s sid tid nid in
       (s', match r with ROk => PlacedAlloc | _ => PlaceRefused end)
     else if less_equal eps (t_init p) (future_idle n) DZero then
